@@ -1,6 +1,6 @@
 let dispatch (f : string list) : string =
   match f with
-  | cmd :: args -> (match Hashtbl.find_opt handlers cmd with Some h -> h args | None -> "BADCMD " ^ cmd)
+  | cmd :: args -> (match Hashtbl.find_opt Registry.handlers cmd with Some h -> h args | None -> "BADCMD " ^ cmd)
   | [] -> "BADLINE"
 
 let () =
